@@ -32,9 +32,15 @@ type Obligation struct {
 	Note    string
 	altPCs  [][]*Term
 	parts   []string
-	PCUsing []*Term // path condition with the quantified assumptions not named in the clause's using-list hidden
-	queryU  string
-	partsU  []string
+	views   []pcView // cheaper views of the path condition tried before the full one (fewer assumptions: sound)
+}
+
+type pcView struct {
+	label  string
+	pc     []*Term
+	budget int
+	query  string
+	parts  []string
 }
 
 type unsupported struct{ msg string }
@@ -54,6 +60,9 @@ type Verifier struct {
 	entry    *State
 	tooMany  bool
 	obKeySeen map[string]int
+	callOrd   map[*ssa.Call]int
+	callNames map[*ssa.Call]string
+	allCalls  []*ssa.Call
 }
 
 func (e *Engine) NewVerifier(fn *ssa.Function, fc *FuncContract) *Verifier {
@@ -77,23 +86,72 @@ func (v *Verifier) oblige(st *State, kind, label string, goal *Term, p token.Pos
 		}
 	}
 	name := fmt.Sprintf("%s#%s[%s]", v.key, kind, label)
+	// goals that are literally among the assumptions need no solver
+	byAssumption := false
+	if !goal.IsTrue() {
+		byAssumption = true
+		conj := []*Term{goal}
+		if goal.op == "and" {
+			conj = goal.args
+		}
+		for _, c := range conj {
+			if !st.pcSet[c.String()] {
+				byAssumption = false
+				break
+			}
+		}
+	}
 	ob := &Obligation{Name: name, Kind: kind, Func: v.key, Pos: v.pos(p), PC: append([]*Term(nil), st.pc...), Goal: goal, Clause: cl, Path: append([]int(nil), st.path...), Inputs: v.inputs}
+	if byAssumption {
+		ob.Static, ob.StaticOK, ob.Note = true, true, "by assumption"
+		ob.PC = nil
+	}
 	if v.fc != nil {
 		ob.Props = v.fc.Props
 	}
 	if cl != nil && len(cl.Props) > 0 {
 		ob.Props = cl.Props
 	}
-	if cl != nil && len(cl.Using) > 0 {
-		keep := map[string]bool{}
-		for _, u := range cl.Using {
-			keep[u] = true
-		}
-		for _, t := range ob.PC {
-			if tag, ok := st.qtag[t.String()]; ok && !keep[tag] {
-				continue
+	if !byAssumption {
+		filter := func(keep map[string]bool, all bool) []*Term {
+			var out []*Term
+			hidden := false
+			for _, t := range ob.PC {
+				if hasQuantifier(t) {
+					tag, tagged := st.qtag[t.String()]
+					if all || (tagged && !keep[tag]) {
+						hidden = true
+						continue
+					}
+				}
+				out = append(out, t)
 			}
-			ob.PCUsing = append(ob.PCUsing, t)
+			if !hidden {
+				return nil
+			}
+			return out
+		}
+		toSet := func(xs []string) map[string]bool {
+			m := map[string]bool{}
+			for _, x := range xs {
+				m[x] = true
+			}
+			return m
+		}
+		if cl != nil && len(cl.Using) > 0 {
+			if pc := filter(toSet(cl.Using), false); pc != nil {
+				ob.views = append(ob.views, pcView{label: "using", pc: pc})
+			}
+		} else {
+			// most goals need no quantified fact at all: short quantifier-free attempt first
+			if pc := filter(nil, true); pc != nil {
+				ob.views = append(ob.views, pcView{label: "qf", pc: pc, budget: 2})
+			}
+			if v.fc != nil && len(v.fc.AutoUse) > 0 {
+				if pc := filter(toSet(v.fc.AutoUse), false); pc != nil {
+					ob.views = append(ob.views, pcView{label: "autouse", pc: pc})
+				}
+			}
 		}
 	}
 	v.obs = append(v.obs, ob)
@@ -117,7 +175,7 @@ func (v *Verifier) Run() (err error) {
 	if len(fn.Blocks) == 0 {
 		v.fail("function %s has no body", v.key)
 	}
-	st := &State{e: v.e, mem: map[Kind]*Term{}, maps: map[string]*Term{}, clos: map[string]*closureVal{}, held: map[string]bool{}, nonnil: map[string]bool{}}
+	st := &State{e: v.e, mem: map[Kind]*Term{}, maps: map[string]*Term{}, clos: map[string]*closureVal{}, held: map[string]*heldLock{}, nonnil: map[string]bool{}}
 	st.next = v.e.sy.Fresh("next0", SInt)
 	st.assume(Gt(st.next, IntLit(0)))
 	fr := &Frame{fn: fn, regs: map[ssa.Value]Value{}, cells: map[*ssa.Alloc]Value{}, info: v.e.info(fn), entryParams: map[string]Value{}}
@@ -245,7 +303,7 @@ func (v *Verifier) evalPhis(st *State, from, to *ssa.BasicBlock) {
 func (v *Verifier) endPath(st *State, at ssa.Instruction, reach bool) {
 	v.ends++
 	if reach && st.top().depth == 0 {
-		if len(v.reachRet[at]) < 3 {
+		if len(v.reachRet[at]) < 24 {
 			v.reachRet[at] = append(v.reachRet[at], append([]*Term(nil), st.pc...))
 		}
 	}
@@ -423,6 +481,7 @@ func (v *Verifier) execFrom(st *State, b *ssa.BasicBlock, idx int) {
 		case *ssa.Send:
 			// abstract event: no effect on the sender's state
 			_ = v.eval(st, ins.Chan)
+			v.escapeValue(st, v.eval(st, ins.X))
 		case *ssa.Select:
 			v.doSelect(st, ins)
 		case *ssa.Go:
@@ -438,6 +497,9 @@ func (v *Verifier) execFrom(st *State, b *ssa.BasicBlock, idx int) {
 		case *ssa.Call:
 			ii := i
 			cins := ins
+			if fr.depth == 0 {
+				v.checkAts(st, ins)
+			}
 			v.doCall(st, &ins.Call, ins, func(st2 *State, res Value) {
 				st2.top().regs[cins] = res
 				v.execFrom(st2, b, ii+1)
@@ -487,6 +549,10 @@ func (v *Verifier) doAlloc(st *State, a *ssa.Alloc) {
 	blk := st.allocTyped(elem)
 	st.storeAt(blk, IntLit(0), v.e.zeroValue(elem))
 	st.nonnil[blk.String()] = true
+	if st.private == nil {
+		st.private = map[string]*Term{}
+	}
+	st.private[blk.String()] = blk
 	fr.regs[a] = Value{T: a.Type(), L: []*Term{blk, IntLit(0)}}
 }
 
@@ -499,6 +565,10 @@ func (v *Verifier) doStore(st *State, s *ssa.Store) {
 func (v *Verifier) storeThrough(st *State, addr, val Value, p token.Pos, addrExpr ssa.Value) {
 	if val.cell != nil {
 		v.fail("storing a cell pointer")
+	}
+	if addr.cell == nil {
+		// a pointer written to memory may be read back by anyone who can reach that memory
+		st.escape(val)
 	}
 	if addr.cell != nil {
 		fr := v.cellFrame(st, addr.cell.alloc)
@@ -762,14 +832,32 @@ func (v *Verifier) binop(st *State, op token.Token, x, y Value, rt types.Type, p
 	case token.QUO, token.REM:
 		v.oblige(st, "div", "divisor of "+op.String(), Neq(b, IntLit(0)), p, nil)
 		st.assume(Neq(b, IntLit(0)))
-		// Go truncated division expressed with SMT floor div/mod
-		absb := Ite(Ge(b, IntLit(0)), b, Neg(b))
+		// Go truncated division/remainder, stated through SMT div/mod on the operands themselves so
+		// that the terms (mod a b) / (div a b) appear literally (quantified invariants mention them)
 		var r *Term
+		if av, ok := a.IsInt(); ok {
+			if bv, ok2 := b.IsInt(); ok2 && bv.Sign() != 0 {
+				q, m := new(big.Int).QuoRem(av, bv, new(big.Int))
+				if op == token.REM {
+					return b1(BigLit(m))
+				}
+				return b1(BigLit(q))
+			}
+		}
 		if op == token.REM {
-			r = Ite(Ge(a, IntLit(0)), SMod(a, absb), Neg(SMod(Neg(a), absb)))
+			r = v.e.sy.Fresh("rem", SInt)
+			nb := Neg(b)
+			st.assume(Implies(And(Ge(a, IntLit(0)), Gt(b, IntLit(0))), Eq(r, mk("mod", SInt, a, b))))
+			st.assume(Implies(And(Lt(a, IntLit(0)), Gt(b, IntLit(0))), Eq(r, Neg(mk("mod", SInt, Neg(a), b)))))
+			st.assume(Implies(And(Ge(a, IntLit(0)), Lt(b, IntLit(0))), Eq(r, mk("mod", SInt, a, nb))))
+			st.assume(Implies(And(Lt(a, IntLit(0)), Lt(b, IntLit(0))), Eq(r, Neg(mk("mod", SInt, Neg(a), nb)))))
 		} else {
-			q := Ite(Ge(a, IntLit(0)), SDiv(a, absb), Neg(SDiv(Neg(a), absb)))
-			r = Ite(Ge(b, IntLit(0)), q, Neg(q))
+			r = v.e.sy.Fresh("quo", SInt)
+			nb := Neg(b)
+			st.assume(Implies(And(Ge(a, IntLit(0)), Gt(b, IntLit(0))), Eq(r, mk("div", SInt, a, b))))
+			st.assume(Implies(And(Lt(a, IntLit(0)), Gt(b, IntLit(0))), Eq(r, Neg(mk("div", SInt, Neg(a), b)))))
+			st.assume(Implies(And(Ge(a, IntLit(0)), Lt(b, IntLit(0))), Eq(r, Neg(mk("div", SInt, a, nb)))))
+			st.assume(Implies(And(Lt(a, IntLit(0)), Lt(b, IntLit(0))), Eq(r, mk("div", SInt, Neg(a), nb))))
 		}
 		return v.wrapInt(st, b1(r))
 	case token.LSS:
@@ -1071,6 +1159,7 @@ func (v *Verifier) makeInterface(st *State, x Value, from, to types.Type) Value 
 	if x.cell != nil {
 		v.fail("cell pointer converted to interface")
 	}
+	v.escapeValue(st, x)
 	if _, isIface := from.Underlying().(*types.Interface); isIface {
 		return Value{T: to, L: x.L}
 	}
@@ -1095,6 +1184,10 @@ func (v *Verifier) doMakeClosure(st *State, mc *ssa.MakeClosure) {
 	for _, b := range mc.Bindings {
 		bv := v.eval(st, b)
 		cv.bindings = append(cv.bindings, bv)
+	}
+	if fn.Parent() == nil || true {
+		// captured variables stay private while the closure itself is only called locally;
+		// they escape when the closure value does (see escapeClosure)
 	}
 	st.clos[ref.String()] = cv
 	v.setReg(st, mc, Value{T: mc.Type(), L: []*Term{ref}, clo: cv})
@@ -1185,6 +1278,10 @@ func (v *Verifier) doGo(st *State, g *ssa.Go) {
 	// about it here. If it carries a contract its precondition is a call-site
 	// obligation.
 	fnv, args := v.evalCallOperands(st, &g.Call)
+	v.escapeValue(st, fnv)
+	for _, a := range args {
+		v.escapeValue(st, a)
+	}
 	var fn *ssa.Function
 	if fnv.clo != nil {
 		fn = fnv.clo.fn
@@ -1235,6 +1332,7 @@ func (v *Verifier) doReturn(st *State, r *ssa.Return) {
 			v.fail("returning cell pointer")
 		}
 		res.L = append(res.L, xv.L...)
+		v.escapeValue(st, xv)
 		if xv.clo != nil && rt.Len() == 1 {
 			res.clo = xv.clo
 		}
@@ -1273,8 +1371,96 @@ func (v *Verifier) markHeld(st *State, env *Env, e CExpr) {
 				}()
 				env.fnFrame = st.frames[0]
 				loc := env.loc(st, e.Args[0])
-				st.held[lockKey(Value{L: []*Term{loc.blk, loc.off}})] = true
+				st.held[lockKey(Value{L: []*Term{loc.blk, loc.off}})] = &heldLock{loc.blk, loc.off}
 			}()
+		}
+	}
+}
+
+// callOrdinals numbers the calls of the function under proof per callee name, in source order.
+func (v *Verifier) callOrdinal(c *ssa.Call) (string, int) {
+	if v.callOrd == nil {
+		v.callOrd = map[*ssa.Call]int{}
+		v.callNames = map[*ssa.Call]string{}
+		type ent struct {
+			c    *ssa.Call
+			name string
+		}
+		var all []ent
+		for _, b := range v.fn.Blocks {
+			for _, ins := range b.Instrs {
+				if c, ok := ins.(*ssa.Call); ok {
+					name := ""
+					if c.Call.IsInvoke() {
+						name = c.Call.Method.Name()
+					} else if f := c.Call.StaticCallee(); f != nil {
+						name = funcKey(f)
+					} else {
+						name = describe(c.Call.Value)
+					}
+					all = append(all, ent{c, name})
+				}
+			}
+		}
+		sort.SliceStable(all, func(i, j int) bool { return all[i].c.Pos() < all[j].c.Pos() })
+		for _, e := range all {
+			v.callNames[e.c] = e.name
+		}
+		v.allCalls = nil
+		for _, e := range all {
+			v.allCalls = append(v.allCalls, e.c)
+		}
+	}
+	return v.callNames[c], 0
+}
+
+func (v *Verifier) checkAts(st *State, c *ssa.Call) {
+	if v.fc == nil || len(v.fc.Ats) == 0 {
+		return
+	}
+	name, _ := v.callOrdinal(c)
+	for _, ab := range v.fc.Ats {
+		if !strings.Contains(name, ab.Callee) {
+			continue
+		}
+		// ordinal among calls matching this at-block's callee substring
+		n := 0
+		match := false
+		for _, oc := range v.allCalls {
+			if strings.Contains(v.callNames[oc], ab.Callee) {
+				n++
+				if oc == c {
+					match = n == ab.Ordinal
+					break
+				}
+			}
+		}
+		if !match {
+			continue
+		}
+		ab.seen = true
+		env := v.loopEnv(st)
+		for i, cl := range ab.Asserts {
+			t := v.evalBoolIn(st, env, cl)
+			v.oblige(st, "assert", fmt.Sprintf("at %s#%d:%s", ab.Callee, ab.Ordinal, clauseLabel(cl, i)), t, c.Pos(), cl)
+			st.assumeTagged(t, cl.Label)
+		}
+	}
+}
+
+// escapeValue: the value leaves the invocation (call argument, interface, return, send ...).
+// Closures take their captured variables with them.
+func (v *Verifier) escapeValue(st *State, val Value) {
+	st.escape(val)
+	if val.clo != nil {
+		for _, b := range val.clo.bindings {
+			st.escape(b)
+		}
+	} else if len(val.L) == 1 {
+		if c, ok := st.clos[val.L[0].String()]; ok {
+			for _, b := range c.bindings {
+				st.escape(b)
+			}
 		}
 	}
 }
